@@ -49,6 +49,44 @@ func ParsePresentationDefinition(raw []byte) (*PresentationDefinition, error) {
 	return &result, nil
 }
 
+// UnmarshalJSON decodes a PresentationDefinition and rejects null members in its lists of input descriptors and
+// submission requirements. Not every source validates a definition against the JSON schema (e.g. a definition received
+// in an OpenID4VP authorization request), and the matching code expects these members to be present.
+func (presentationDefinition *PresentationDefinition) UnmarshalJSON(data []byte) error {
+	type alias PresentationDefinition
+	var tmp alias
+	if err := json.Unmarshal(data, &tmp); err != nil {
+		return err
+	}
+	if err := PresentationDefinition(tmp).checkNoNullMembers(); err != nil {
+		return err
+	}
+	*presentationDefinition = PresentationDefinition(tmp)
+	return nil
+}
+
+// checkNoNullMembers returns an error if the list of input descriptors or (nested) submission requirements contains nil.
+func (presentationDefinition PresentationDefinition) checkNoNullMembers() error {
+	for _, inputDescriptor := range presentationDefinition.InputDescriptors {
+		if inputDescriptor == nil {
+			return errors.New("presentation definition: input_descriptors contains null")
+		}
+	}
+	return checkNoNullSubmissionRequirements(presentationDefinition.SubmissionRequirements)
+}
+
+func checkNoNullSubmissionRequirements(requirements []*SubmissionRequirement) error {
+	for _, requirement := range requirements {
+		if requirement == nil {
+			return errors.New("presentation definition: submission_requirements/from_nested contains null")
+		}
+		if err := checkNoNullSubmissionRequirements(requirement.FromNested); err != nil {
+			return err
+		}
+	}
+	return nil
+}
+
 // Candidate is a struct that holds the result of a match between an input descriptor and a VC
 // A non-matching VC also leads to a Candidate, but without a VC.
 type Candidate struct {
